@@ -9,6 +9,60 @@ from vf.pipeline import Group, Replay, ALL_LIB, VERIF
 
 ID = 'C18'
 LEVEL = 'proof'
+EXPLANATION = (
+    'format_duration, usecs_to_timeval, timeval_to_usecs, format_size (64-bit variant), parse_size and format_time are cut from src/Time.cc / '
+    'src/Strings.cc on every run and put under function contracts (goto-instrument --dfcc, cbmc). A std::string built by string_printf / operator+ is '
+    'modelled by the sequence of printf conversions that produced it (stubs/C18_text.h): the format string of every string_printf call is parsed by the '
+    'extractor on every run and becomes one stub call per conversion, so the contracts speak about WHICH value is printed with WHICH conversion, width, '
+    'flag and precision, in WHICH order. format_duration: never throws (std::string::at lowered to the exception flag); the text is in the grammar '
+    '[d:][h:][m:]s[.f]; inner fields are two characters zero padded (for every possible length of the "%.*lf" seconds text: 1 or 2 integer digits, with '
+    'or without a point); days*86400e6 + hours*3600e6 + minutes*60e6 + numerator == usecs exactly, where numerator/10^6 is the one division whose result '
+    'the seconds conversion prints; h < 24, m < 60, s < 60; the requested precision is the printed one -- for all 2^64 durations x all 256 int8 '
+    'precisions, split into five magnitude ranges. The nested floor-division identities behind the field decomposition are arithmetic lemma functions '
+    '(spec/C18_arith.h) proved for all 2^64 arguments by cvc5 with integer reasoning and then used through their contracts. The timeval conversions have '
+    'exact contracts and both inverse laws are lemmas over the contracts. format_size: the unit is the largest power of 1024 <= size, the printed '
+    'quotient is size / unit, byte count and fixed text exact, for all sizes. parse_size: loop contracts -- the scan never leaves the NUL-terminated '
+    'buffer (any length up to 2^20), the digit loop folds exactly the maximal digit prefix by value*10+digit (lock-step ghost), blanks, unit letter -> '
+    'power of 1024. format_time: the second count handed to gmtime_r is floor(t/10^6), the microsecond field is ".%06u" of t mod 10^6 written right '
+    'behind the strftime text within the remaining room, runtime_error iff libc reports failure.')
+TRUSTED = [
+    'stubs/C18_text.h: the printf / std::string model (token summary of a formatted text; %u, %s, %f, literal runs; std::string::at throws iff i >= size(); '
+    'number of integer digits of a "%.Pf" text as a function of the value, with both neighbours allowed in the rounding windows [9.5,10) and [99.5,100); '
+    'recogniser of the duration grammar [d:][h:][m:]s[.f] and its per-path evaluation in microseconds); c18_ratio/c18_ratiof: '
+    '"(double)x / c" and "(float)x / c" with the operands recorded in ghosts; isdigit in the "C" locale',
+    'stubs/C18_ftime.h: gmtime_r / strftime / snprintf(".%06u") as memory-safety preconditions + ghost records of their arguments + any return value '
+    'ISO C / POSIX allow; std::string(n, c) / data() / size() / resize() on a 256-byte buffer',
+    'props/C18.py PrintfLowering: the parser of printf format strings (literal runs, %[0][w]u with l/ll/z/h/hh, %.Pf / %.*lf, %s, %%; PRIu64 = "lu", '
+    'PRIu32 = "u") and the statement shapes "return string_printf(..) [+ s];" / "string s = string_printf(..);"',
+    'tools/C18_cvc5_int.sh: cvc5 --solve-bv-as-int=sum (same solver, integer encoding of bit-vector arithmetic) for the arithmetic lemma groups',
+    'contracts/C18_*.h, spec/C18_arith.h: the contracts (transcription of the property statement and of the documented text forms) and lemma statements',
+]
+ASSUMPTIONS = [
+    'printf conforms to ISO C 7.21.6.1 for the conversions used (decimal numerals; field width and 0 flag; "%.Pf" prints P decimals of the correctly '
+    'rounded value, no point for P = 0; a negative "*" precision counts as omitted); string_printf / std::string allocation succeeds (bad_alloc not modelled)',
+    'time_t / suseconds_t are signed 64-bit (LP64 glibc); size_t is 64 bits: the SIZE_T_BITS == 64 variants of format_size / parse_size are the ones checked',
+    'timeval_to_usecs is specified for 0 <= tv_usec < 10^6 and tv_sec*10^6 + tv_usec <= INT64_MAX (the property statement: durations up to 2^63 us): beyond that the '
+    'signed multiplication tv_sec * 1000000 in the real code overflows (undefined behaviour in C++; wraps to the right value on x86-64 gcc)',
+    'isdigit() of a negative char value answers 0 (glibc; formally undefined in ISO C) -- parse_size passes plain char',
+    'parse_size: the argument is a NUL-terminated buffer of at most 2^20 bytes',
+]
+DROPS = ('std::string results -> out-parameter c18_text* / c18_fstr* (a typed global object); string_printf(FMT, ...) -> c18_put_* calls generated from FMT; '
+         'operator+ -> c18_append; .at()/.size() -> c18_at/c18_size; static_cast<double>(x) / c -> c18_ratio(x, c), (float)x / c -> c18_ratiof(x, c) (same '
+         'arithmetic, operands recorded); timeval& -> pointer; throw -> verif_exc flag; min<size_t> -> macro; gmtime_r/strftime/snprintf/isdigit -> stubs; '
+         'of the four preprocessor variants of format_size only SIZE_T_BITS == 64 is extracted (SIZE_T_BITS and the KB_SIZE.. ladder are cut verbatim from '
+         'Platform.hh / Strings.cc); ghost statements: one lemma call at the start of format_duration, lock-step fold / counters in the parse_size loops')
+NOT_DECIDED = [
+    'the decimal digits printf produces: that the "%.*lf" text of numerator/10^6 is that value correctly rounded at P decimals (ties, double rounding of the '
+    'quotient) -- libc + floating point; the check proves which double is printed (numerator, denominator 10^6) and at which precision, not its digits',
+    'format_time: the UTC calendar date/time itself (gmtime_r, strftime are libc); only the seconds/microseconds split, the call protocol, the field '
+    'format and the length arithmetic are decided. That the strftime text always fits the 128-byte string (it is 19..21 characters) is libc behaviour',
+    'format_size / parse_size agreement "to the printed precision": the value of (float)size / unit and its "%.02f" text, and the fractional part of '
+    'parse_size (double arithmetic in a loop) are not decided; decided are the unit ladder, the operands of the division, the byte count, the fixed text, '
+    'and parse_size for inputs without a fractional part',
+    'format_time_natural (local time zone) and now() are outside the statement',
+    'the SIZE_T_BITS == 8/16/32 variants of format_size / parse_size (dead code on LP64)',
+    'timeval_to_usecs for times beyond 2^63 us (signed overflow in the real code: undefined behaviour, outside the quantifier of the property)',
+]
 
 TIME, STR, PLAT = 'src/Time.cc', 'src/Strings.cc', 'src/Platform.hh'
 
@@ -257,6 +311,24 @@ def timeval_unit(ctx, src):
     return u
 
 
+def format_time_unit(ctx, src):
+    u = Unit(ctx, 'format_time')
+    u.raw('#include "stubs/C18_ftime.h"\n')
+    u.function(src, TIME, r'string format_time\(uint64_t t\)', new_header='void format_time(c18_fstr* ret, uint64_t t)', ret_zero='',
+               rules=[Rule(r'\bstring ret\(([^;]*?)\);', r'c18_fstr_init(ret, \1);', regex=True, count=1),
+                      Rule('ret.data()', 'c18_fstr_data(ret)', count='+'),
+                      Rule('ret.size()', 'c18_fstr_size(ret)', count='+'),
+                      Rule(r'\bret\.resize\(', 'c18_fstr_resize(ret, ', regex=True, count=1),
+                      Rule('min<size_t>(', 'C18_MIN_SIZE(', count=1),
+                      Rule(r'\bgmtime_r\(', 'c18_gmtime_r(', regex=True, count=1),
+                      Rule(r'\bstrftime\(', 'c18_strftime(', regex=True, count=1),
+                      # snprintf(dst, n, ".%[0][w]" PRIu32, v): flag and width of the conversion become arguments of the stub
+                      Rule(r'\bsnprintf\(([^;]*?),\s*"\.%(0?)(\d*)"\s*PRIu32\s*,',
+                           lambda mo: 'c18_snprintf_dot_u32(%s, %d, %d,' % (mo.group(1), 1 if mo.group(2) else 0, int(mo.group(3) or 0)), regex=True, count=1),
+                      Rule(r'\breturn ret;', 'return;', regex=True, count=1)])
+    return u
+
+
 def size_macros(u, src):
     """SIZE_T_BITS (Platform.hh) and the KB_SIZE.. ladder constants (Strings.cc), verbatim preprocessor text."""
     u.raw('#include <stdint.h>\n#include <stddef.h>\n')
@@ -291,7 +363,7 @@ __CPROVER_decreases(g_ps_n - __CPROVER_POINTER_OFFSET(str))
 PARSE_SP_LOOP = """
 __CPROVER_assigns(str, g_ps_nsp)
 __CPROVER_loop_invariant(__CPROVER_same_object(str, g_ps_base) && __CPROVER_POINTER_OFFSET(str) < g_ps_n)
-__CPROVER_loop_invariant(__CPROVER_POINTER_OFFSET(str) == g_ps_sp0 + g_ps_nsp)
+__CPROVER_loop_invariant(g_ps_sp0 < g_ps_n && g_ps_nsp < g_ps_n && __CPROVER_POINTER_OFFSET(str) == g_ps_sp0 + g_ps_nsp)
 __CPROVER_loop_invariant(g_ps_k2 < g_ps_nsp ==> g_ps_base[g_ps_sp0 + g_ps_k2] == ' ')
 __CPROVER_decreases(g_ps_n - __CPROVER_POINTER_OFFSET(str))
 """
@@ -300,15 +372,16 @@ __CPROVER_decreases(g_ps_n - __CPROVER_POINTER_OFFSET(str))
 def parse_size_unit(ctx, src):
     u = Unit(ctx, 'parse_size')
     size_macros(u, src)
-    u.raw('#include "stubs/C18_text.h"\n#include "contracts/C18_size.h"\n')
+    u.raw('#include "contracts/C18_size.h"\n')
     u.function(src, STR, r'size_t parse_size\(const char\* str\)',
                rules=[Rule('isdigit(', 'c18_isdigit(', count=2),
                       # lock-step specification fold (DESIGN.md 3.4): the ghost accumulator is advanced by the numeral
                       # definition value(s.d) = value(s) * 10 + digit(d) on the character the loop is about to consume
                       AtLoopBodyStart(1, 'g_ps_int = g_ps_int * 10 + C18_DIGIT(*str); g_ps_ndig++;'),
                       AtLoopBodyStart(3, 'g_ps_nsp++;'),
-                      Rule(r'(for \(; \*str == \' \'; str\+\+\))', r'g_ps_sp0 = __CPROVER_POINTER_OFFSET(str); g_ps_dot = (g_ps_sp0 != g_ps_ndig); \1', regex=True, count=1)],
-               nloops=3, loops={1: PARSE_INT_LOOP, 2: PARSE_FRAC_LOOP, 3: PARSE_SP_LOOP})
+                      Rule(r'(for \(; \*str == \' \'; str\+\+\))', r'g_ps_sp0 = __CPROVER_POINTER_OFFSET(str); \1', regex=True, count=1)],
+               nloops=3, loops={1: PARSE_INT_LOOP, 2: PARSE_FRAC_LOOP, 3: PARSE_SP_LOOP},
+               body_prefix=' g_ps_base = str; g_ps_int = 0; g_ps_ndig = 0; g_ps_sp0 = 0; g_ps_nsp = 0; ')
     return u
 
 
@@ -323,28 +396,54 @@ def plan(ctx):
     ranges = [('lt_1s', 0, US - 1), ('lt_1min', US, 60 * US - 1), ('lt_1h', 60 * US, 3600 * US - 1),
               ('lt_1d', 3600 * US, 86400 * US - 1), ('ge_1d', 86400 * US, 2 ** 64 - 1)]
     for nm, lo, hi in ranges:
+        # the day/hour ranges need an SMT back end (the lemma facts are used through shared terms; z3 also normalises the sums)
+        heavy = nm in ('lt_1d', 'ge_1d')
         groups.append(Group(name='Time.format_duration[%s]' % nm, harness='harness/C18/duration.c', entry='h_format_duration',
                             function='format_duration', enforce='format_duration', replace=['c18_fdiv', 'c18_lemma_dhm'],
-                            defines=['DUR_LO=%dull' % lo, 'DUR_HI=%dull' % hi], first='cvc5', stage1=60, timeout=300, replay=RP,
+                            defines=['DUR_LO=%dull' % lo, 'DUR_HI=%dull' % hi], first='z3' if heavy else 'cadical', stage1=40 if heavy else 15,
+                            timeout=400, replay=RP,
                             clause_note='contracts/C18_duration.h: never throws; grammar [d:][h:][m:]s[.f]; inner fields two characters zero padded; '
                                         'fields * unit + numerator of the printed seconds == usecs; h<24, m<60, s<60; requested precision'))
     groups.append(Group(name='stub.c18_fdiv.bounds', harness='harness/C18/duration.c', entry='h_fdiv', function='(double)num / den (model lemma)',
                         enforce='c18_fdiv', defines=['DUR_LO=0', 'DUR_HI=0'], kind='lemma', first='cvc5', stage1=60, timeout=300))
+    ufm = format_time_unit(ctx, src)
+    ufm.write()
+    ctx.functions_under_contract += ufm.functions
+    groups.append(Group(name='Time.format_time', harness='harness/C18/ftime.c', entry='h_format_time', function='format_time', enforce='format_time',
+                        first='cvc5', stage1=20, min_post=6, replay=Replay(driver='C18/time.cc', mode='format_time', sources=ALL_LIB),
+                        clause_note='contracts/C18_ftime.h: gmtime_r gets floor(t/10^6); ".%06u" of t mod 10^6 right behind the strftime text; runtime_error iff libc fails'))
+    uf = format_size_unit(ctx, src)
+    uf.write()
+    ctx.functions_under_contract += uf.functions
+    groups.append(Group(name='Strings.format_size', harness='harness/C18/size.c', entry='h_format_size', function='format_size', enforce='format_size',
+                        min_post=4, replay=Replay(driver='C18/time.cc', mode='format_size', sources=ALL_LIB),
+                        clause_note='contracts/C18_size.h: unit = largest power of 1024 <= size; printed quotient = size / unit; byte count and fixed text exact'))
+    up = parse_size_unit(ctx, src)
+    up.write()
+    ctx.functions_under_contract += up.functions
+    groups.append(Group(name='Strings.parse_size', harness='harness/C18/size.c', entry='h_parse_size', function='parse_size', enforce='parse_size',
+                        loops=True, kind='loop-contract', defines=['C18_PARSE=1'], min_post=6, timeout=300, fallback_unwind=10,
+                        replay=Replay(driver='C18/time.cc', mode='parse_size', sources=ALL_LIB, small_define='VERIF_SMALL'),
+                        clause_note='contracts/C18_size.h: scan stays inside the buffer; maximal digit prefix folded by value*10+digit; blanks; unit letter -> power of 1024'))
+    # cvc5 with bit-vector arithmetic solved as integer arithmetic (tools/C18_cvc5_int.sh): quotient/remainder facts
+    INTBLAST = dict(engines=['cvc5'], cbmc_flags=['--external-smt2-solver', os.path.join(VERIF, 'tools', 'C18_cvc5_int.sh')], stage1=120, timeout=120)
     ut = timeval_unit(ctx, src)
     ut.write()
     ctx.functions_under_contract += ut.functions
     HT = 'harness/C18/timeval.c'
     RT = lambda mode: Replay(driver='C18/time.cc', mode=mode, sources=ALL_LIB)
     groups.append(Group(name='Time.usecs_to_timeval', harness=HT, entry='h_usecs_to_timeval', function='usecs_to_timeval', enforce='usecs_to_timeval',
-                        first='cvc5', stage1=20, min_post=3, replay=RT('usecs_to_timeval'),
+                        min_post=3, **INTBLAST, replay=RT('usecs_to_timeval'),
                         clause_note='0 <= tv_usec < 10^6, tv_sec * 10^6 + tv_usec == usecs'))
     groups.append(Group(name='Time.timeval_to_usecs', harness=HT, entry='h_timeval_to_usecs', function='timeval_to_usecs', enforce='timeval_to_usecs',
                         first='cvc5', stage1=20, min_post=2, replay=RT('timeval_to_usecs')))
     groups.append(Group(name='Time.timeval.roundtrip_usecs', harness=HT, entry='l_roundtrip_usecs', function='timeval_to_usecs(usecs_to_timeval(u)) == u',
                         replace=['usecs_to_timeval', 'timeval_to_usecs'], kind='lemma', first='cvc5', stage1=20, replay=RT('roundtrip_usecs')))
     groups.append(Group(name='Time.timeval.roundtrip_timeval', harness=HT, entry='l_roundtrip_timeval', function='usecs_to_timeval(timeval_to_usecs(tv)) == tv',
-                        replace=['usecs_to_timeval', 'timeval_to_usecs'], kind='lemma', first='cvc5', stage1=20, replay=RT('roundtrip_timeval')))
-    INTBLAST = dict(engines=['cvc5'], cbmc_flags=['--external-smt2-solver', os.path.join(VERIF, 'tools', 'C18_cvc5_int.sh')], stage1=120, timeout=120)
+                        replace=['usecs_to_timeval', 'timeval_to_usecs', 'c18_lemma_divmod_unique'], kind='lemma', first='cvc5', stage1=20,
+                        replay=RT('roundtrip_timeval')))
+    groups.append(Group(name='lemma.divmod_unique', harness=HT, entry='h_lemma_divmod_unique', function='uniqueness of quotient and remainder (arithmetic lemma)',
+                        enforce='c18_lemma_divmod_unique', kind='lemma', **INTBLAST))
     groups.append(Group(name='lemma.nested_div', harness='harness/C18/duration.c', entry='h_lemma_nested_div', function='u / (a*b) == (u / a) / b (arithmetic lemma)',
                         enforce='c18_lemma_nested_div', defines=['DUR_LO=0', 'DUR_HI=0'], kind='lemma', min_post=2, **INTBLAST))
     groups.append(Group(name='lemma.cong24', harness='harness/C18/duration.c', entry='h_lemma_cong24', function='x == y ==> x % 24 == y % 24 (arithmetic lemma)',
@@ -355,3 +454,17 @@ def plan(ctx):
 
 
 CLAIMED = True
+MANIFEST = dict(
+    category='proof',
+    text=('format_duration (all 2^64 durations x all int8 precisions, five magnitude ranges), usecs_to_timeval / timeval_to_usecs and both inverse laws, '
+          'format_size (all sizes, both modes), parse_size (any NUL-terminated buffer up to 2^20 bytes, loop contracts) and the phosg-owned part of format_time '
+          'are put under function contracts on the text extracted from src/Time.cc / src/Strings.cc on every run and discharged by cbmc. Formatted strings are '
+          'modelled by the printf conversions that produce them (format strings parsed on every run), so the contracts decide totality (never throws), the '
+          'field grammar and zero padding, the exact field decomposition (fields*unit + printed numerator == usecs, h<24, m<60, s<60), the unit ladder and the '
+          'printed operands. The nested-division identities are lemma functions proved for all 64-bit arguments and used via their contracts.'),
+    note=('Not decided (libc / floating point): the decimal digits of %f conversions, the UTC calendar of format_time, format_size/parse_size agreement at the '
+          'printed precision, fractional inputs of parse_size. Trusted: cbmc/goto-instrument, the answering solver (cvc5 with integer encoding for the arithmetic '
+          'lemmas), the extractor incl. the printf-format lowering, the text/libc stubs (stubs/C18_text.h, stubs/C18_ftime.h). Confirmed defect: format_duration '
+          'threw std::out_of_range in the minutes branch for precision 0 and seconds < 10 (fixes/C18-1.patch).'),
+    technique='function contracts + loop contracts enforced with goto-instrument --dfcc, lemma functions bound by --replace-call-with-contract, discharged by cbmc (SAT/SMT portfolio)',
+)
